@@ -16,6 +16,59 @@ def profile(n0, k, a):
     return (lambda z: n0 - k * np.exp(a * z)), (lambda z: -k * a * np.exp(a * z))
 
 
+def trace_with_integrals(n, dn, ztop, src_z, emitted, L, extra, n_extra, rtol=1e-10):
+    """Like trace_to_length, additionally integrating `extra(z)` (array of n_extra integrands per unit arc length)
+    along the ray.  Returns (rho, z, T, dir_rho, dir_z, n_reflections, n_turns, integrals, [z at reflections])."""
+    sin0 = float(np.hypot(emitted[0], emitted[1]))
+    cos0 = float(emitted[2])
+    pr = n(src_z) * sin0
+    pz = n(src_z) * cos0
+
+    def rhs(s, y):
+        z = y[1]
+        nn = n(z)
+        return np.concatenate(([pr / nn, y[2] / nn, dn(z), nn / C], extra(z)))
+
+    def hit_top(s, y):
+        return y[1] - ztop
+    hit_top.terminal = True
+    hit_top.direction = 1
+
+    def turn(s, y):
+        return y[2]
+    turn.terminal = True
+    turn.direction = -1
+    state = np.concatenate(([0.0, src_z, pz, 0.0], np.zeros(n_extra)))
+    s_done, nrefl, nturn = 0.0, 0, 0
+    for leg in range(60):
+        rem = L - s_done
+        if rem <= 0:
+            break
+        sol = solve_ivp(rhs, [0, rem], state, events=[hit_top, turn], rtol=rtol, atol=1e-12, method="DOP853", max_step=max(L / 200, 1e-3))
+        y = sol.y[:, -1].copy()
+        if sol.status == 1 and len(sol.t_events[0]) > 0:
+            s_done += sol.t[-1]
+            nrefl += 1
+            y[1], y[2] = ztop, -abs(y[2])
+            state = y
+            continue
+        if sol.status == 1 and len(sol.t_events[1]) > 0:
+            nturn += 1
+            s_done += sol.t[-1]
+            y[2] = min(y[2], 0.0)
+            h = min(1e-6, (L - s_done) / 2) if L - s_done > 0 else 0
+            if h > 0:
+                y = y + h * rhs(0, y)
+                s_done += h
+            state = y
+            continue
+        s_done = L
+        state = y
+        break
+    nn = n(state[1])
+    return float(state[0]), float(state[1]), float(state[3]), float(pr / nn), float(state[2] / nn), nrefl, nturn, np.array(state[4:], float)
+
+
 def trace_to_length(n, dn, ztop, src_z, emitted, L, rtol=1e-11):
     """Returns rho, z, T, dir_rho, dir_z, n_reflections, n_turns at arc length L."""
     sin0 = float(np.hypot(emitted[0], emitted[1]))
